@@ -207,7 +207,7 @@ Section Keywords.
     destruct (contains_char ":" first).
     - destruct (span (contains_char ":") r1) as [bs r2] eqn:E.
       destruct (map_opt parse_range (first :: bs)) as [bounds|] eqn:Eb; [|discriminate].
-      destruct (bounds_size bounds <=? 0)%Z eqn:Esz; [discriminate|].
+      destruct (bounds_size bounds <=? 0)%Z eqn:Esz; [destruct (bounds_size bounds <? 0)%Z; discriminate|].
       destruct (expand_ints SC e (Z.to_nat (bounds_size bounds)) r2 []) as [[us r3]|] eqn:Ex;
         [|discriminate].
       assert (Hr2 : r2 <> []).
@@ -267,7 +267,7 @@ Section Keywords.
     destruct (contains_char ":" first).
     - destruct (span (contains_char ":") r1) as [bs r2] eqn:E.
       destruct (map_opt parse_range (first :: bs)) as [bounds|]; [|discriminate].
-      destruct (bounds_size bounds <=? 0)%Z; [discriminate|].
+      destruct (bounds_size bounds <=? 0)%Z; [destruct (bounds_size bounds <? 0)%Z; discriminate|].
       destruct (expand_ints SC e (Z.to_nat (bounds_size bounds)) r2 []) as [[us r3]|] eqn:Ex;
         [|discriminate].
       cbn [bind] in H.
